@@ -132,6 +132,21 @@ func genConc(c *genCtx) error {
 		var wg, ready sync.WaitGroup
 		ready.Add(G)
 		order := rand.New(rand.NewSource(c.seed*77 + int64(ri))).Perm(len(inputs)) // the same windows for every goroutine
+		// the inputs of this round are carved out of ONE array, back to back in the order of the windows: every
+		// input's spare capacity is its neighbours' bytes, which other goroutines are reading at the same time
+		// (lines of one read buffer handed to workers).  Sharing read-only input bytes is allowed; anything the
+		// library does beyond len(data) meets a concurrent reader here.
+		inputs := append([]concInput{}, inputs...)
+		total := 0
+		for _, in := range inputs {
+			total += len(in.data)
+		}
+		arena := make([]byte, 0, total)
+		for _, idx := range order {
+			a := len(arena)
+			arena = append(arena, inputs[idx].data...)
+			inputs[idx].data = arena[a:len(arena)]
+		}
 		barrier := make([]sync.WaitGroup, 2+len(inputs)/6+1)
 		for i := range barrier {
 			barrier[i].Add(G)
